@@ -145,6 +145,46 @@ def scalar_tie(rep, ops, rng):
     return n_pts, bad
 
 
+def formula_search(ops):
+    """search for a failing input at the level of the translated formulas: backward formula (g = 1) against a 4th-order central-difference
+    derivative of the translated forward formula, at smooth interior points (used to attach a concrete input to a broken VJP lemma)"""
+    pts1 = np.array([-2.3, -1.7, -1.2, -0.7, -0.45, -0.2, 0.15, 0.3, 0.6, 0.85, 1.3, 1.9, 2.6])
+    other = [0.7, -1.4, 2.2]
+    found, n = [], 0
+    with np.errstate(all="ignore"):
+        for op in ops:
+            names = op["operands"]
+            for i, nm in enumerate(names):
+                for o in (other if len(names) == 2 else [None]):
+                    env0 = {p: np.float64(0.7) for p in op["params"]}
+                    if o is not None:
+                        env0[names[1 - i]] = np.full_like(pts1, o)
+                    env0["g"] = np.ones_like(pts1)
+
+                    def F(x):
+                        e = dict(env0)
+                        e[nm] = x
+                        return np.broadcast_to(ev(op["fwd"], e, NUMPY1, NUMPY2), x.shape).astype(np.float64)
+                    h = 1e-3
+                    d1 = (F(pts1 + h) - F(pts1 - h)) / (2 * h)
+                    d2 = (F(pts1 + h / 2) - F(pts1 - h / 2)) / h
+                    rich = (4 * d2 - d1) / 3
+                    e = dict(env0)
+                    e[nm] = pts1
+                    ana = np.broadcast_to(ev(op["bwd"][i], e, NUMPY1, NUMPY2), pts1.shape).astype(np.float64)
+                    smooth = np.isfinite(rich) & np.isfinite(ana) & (np.abs(d1 - d2) <= 1e-5 * (1 + np.abs(rich))) & np.isfinite(F(pts1))
+                    n += int(smooth.sum())
+                    err = np.abs(ana - rich) / (1 + np.abs(rich))
+                    badm = smooth & (err > 1e-8)
+                    if badm.any():
+                        k = int(np.argmax(np.where(badm, err, 0)))
+                        found.append({"kind": "the backward formula of %s (operand %d) read from the source is not the derivative of its forward formula at %s=%r%s: formula %r, derivative %r"
+                                              % (op["name"], i, nm, float(pts1[k]), "" if o is None else " (%s=%r)" % (names[1 - i], o), float(ana[k]), float(rich[k])),
+                                      "op": op["name"], "operand": i, "point": float(pts1[k]), "other": o, "formula": float(ana[k]), "numeric_derivative": float(rich[k])})
+                        break
+    return n, found
+
+
 def realops_tie():
     """the real-number definitions (REAL1/REAL2 mirror Model/RealOps.v) against NumPy's functions on their domains"""
     bad, n = [], 0
@@ -186,6 +226,128 @@ def realops_guard():
     sha = hashlib.sha256(txt.encode()).hexdigest()[:16]
     if sha != REALOPS_EXPECTED_SHA:
         raise HarnessError("coq/Model/RealOps.v changed (sha %s): re-examine the NumPy mirror REAL1/REAL2 in harness/c02.py and update REALOPS_EXPECTED_SHA" % sha)
+
+
+# ------------------------------------------------------------------ lane reductions (Model/VecOps.v)
+VECOPS_EXPECTED_SHA = "2392568867c3b207"
+
+
+def vecops_guard():
+    txt = open(os.path.join(COQ, "Model", "VecOps.v")).read()
+    sha = hashlib.sha256(txt.encode()).hexdigest()[:16]
+    if sha != VECOPS_EXPECTED_SHA:
+        raise HarnessError("coq/Model/VecOps.v changed (sha %s): re-examine the NumPy mirror lane_model() in harness/c02.py and update VECOPS_EXPECTED_SHA" % sha)
+
+
+def lane_model(fn, lane, g, ddof=0.0, glane=None, y=None, c=1.0):
+    """NumPy mirror of the *_bwd definitions of Model/VecOps.v for one lane -> vector of what every element receives"""
+    n = len(lane)
+    if fn == "sum":
+        return np.full(n, g)
+    if fn == "mean":
+        return np.full(n, g / n)
+    m = lane.sum() / n
+    if fn == "var":
+        return (2.0 / (n - ddof)) * (lane - m) * g
+    if fn == "std":
+        v = ((lane - m) ** 2).sum() / (n - ddof)
+        return (2.0 / (n - ddof)) * (lane - m) * (g / (2 * np.sqrt(v)))
+    if fn == "prod":
+        nz = int((lane == 0).sum())
+        out = np.zeros(n)
+        with np.errstate(all="ignore"):
+            if nz == 0:
+                out = lane.prod() / lane
+            elif nz == 1:
+                ones = np.where(lane == 0, 1.0, lane)
+                out = np.where(lane == 0, ones.prod() / 1.0, lane.prod() / np.where(lane == 0, 1.0, lane))
+        return g * out
+    e = np.exp(lane)
+    soft = e / e.sum()
+    if fn == "softmax":
+        return soft * glane - soft * (soft * glane).sum()
+    if fn == "logsoftmax":
+        return glane - soft * glane.sum()
+    if fn == "softmax_crossentropy":
+        return g * ((soft - (np.arange(n) == y)) * c)
+    raise HarnessError(fn)
+
+
+def lane_tie(rng, tier):
+    tasks = []
+    shapes_axes = [((5,), [None, 0, -1]), ((3, 4), [None, 0, 1, -1, [0, 1]]), ((2, 3, 4), [None, 0, 1, 2, -1, [0, 2], [1, 2], [0, 1, 2], [2, 0]]), ((2, 2, 3, 2), [[1, 3], [0, 2], 2])]
+    reps = 3 if tier == "thorough" else 1
+    for _ in range(reps):
+        for sh, axes in shapes_axes:
+            n = int(np.prod(sh))
+            for ax in axes:
+                for kd in (False, True):
+                    for fn in ("sum", "mean", "prod", "var", "std"):
+                        for ddof in ((0, 1) if fn in ("var", "std") else (0,)):
+                            x = [round(rng.uniform(-2, 2), 3) or 0.5 for _ in range(n)]
+                            if fn == "prod":
+                                for zi in rng.sample(range(n), rng.choice([0, 1, 2, 3])):
+                                    x[zi] = 0.0
+                            tasks.append({"kind": "lane", "fn": fn, "shape": list(sh), "axis": ax, "keepdims": kd, "ddof": ddof, "x": x, "gseed": rng.randrange(10 ** 6)})
+                if not (isinstance(ax, list) and len(ax) == len(sh)):
+                    for fn in ("softmax", "logsoftmax"):
+                        x = [round(rng.uniform(-2, 2), 3) for _ in range(n)]
+                        tasks.append({"kind": "lane", "fn": fn, "shape": list(sh), "axis": ax, "x": x, "gseed": rng.randrange(10 ** 6)})
+        for N, C in ((1, 3), (3, 4), (5, 2)):
+            tasks.append({"kind": "lane", "fn": "softmax_crossentropy", "shape": [N, C], "axis": 1, "x": [round(rng.uniform(-2, 2), 3) for _ in range(N * C)],
+                          "labels": [rng.randrange(C) for _ in range(N)], "gseed": rng.randrange(10 ** 6)})
+    # the incoming gradient: drawn here once the output shape is known (computed with NumPy)
+    for t in tasks:
+        x = np.array(t["x"]).reshape(t["shape"])
+        ax = tuple(t["axis"]) if isinstance(t["axis"], list) else t["axis"]
+        if t["fn"] in ("softmax", "logsoftmax"):
+            oshape = x.shape
+        elif t["fn"] == "softmax_crossentropy":
+            oshape = ()
+        else:
+            oshape = np.sum(x, axis=ax, keepdims=t.get("keepdims", False)).shape
+        rs = np.random.RandomState(t["gseed"])
+        t["g"] = np.round(rs.uniform(-2, 2, size=int(np.prod(oshape, dtype=np.int64))), 3).tolist()
+    parts = [tasks[i::8] for i in range(8)]
+    res = [None] * len(tasks)
+    for k, rr in enumerate(run_impl_parallel("c02_impl.py", [{"tasks": p} for p in parts if p])):
+        for j, r in enumerate(rr["results"]):
+            res[k + 8 * j] = r
+    bad, n_lanes = [], 0
+    for t, r in zip(tasks, res):
+        if "error" in r:
+            bad.append({"kind": "lane tie: %s raised %s" % (t["fn"], r["error"]), "task": t})
+            continue
+        x = np.array(t["x"], dtype=np.float64).reshape(t["shape"])
+        nd = x.ndim
+        ax = t["axis"]
+        red = tuple(range(nd)) if ax is None else tuple(sorted(a % nd for a in (ax if isinstance(ax, list) else [ax])))
+        keep = tuple(i for i in range(nd) if i not in red)
+        perm = keep + red
+        kshape = tuple(x.shape[i] for i in keep)
+        X = np.transpose(x, perm).reshape(int(np.prod(kshape, dtype=np.int64)), -1)
+        G = np.transpose(np.array(r["grad"]).reshape(x.shape), perm).reshape(X.shape)
+        g = np.array(t["g"], dtype=np.float64)
+        if t["fn"] in ("softmax", "logsoftmax"):
+            GL = np.transpose(g.reshape(x.shape), perm).reshape(X.shape)
+        elif t["fn"] == "softmax_crossentropy":
+            GL = None
+        else:
+            gl = g.reshape(-1)       # output elements in C order of the kept axes = lane order
+        for k in range(X.shape[0]):
+            n_lanes += 1
+            if t["fn"] in ("softmax", "logsoftmax"):
+                want = lane_model(t["fn"], X[k], None, glane=GL[k])
+            elif t["fn"] == "softmax_crossentropy":
+                want = lane_model(t["fn"], X[k], g.reshape(-1)[0], y=t["labels"][k], c=1.0 / X.shape[0])
+            else:
+                want = lane_model(t["fn"], X[k], gl[k], ddof=float(t.get("ddof", 0)))
+            ok, at = same(want, G[k], 1e-10, 1e-12)
+            if not ok:
+                bad.append({"kind": "lane reduction %s (axis=%s keepdims=%s ddof=%s): element %s of lane %s received %r, Model/VecOps.v's formula gives %r" % (
+                    t["fn"], t["axis"], t.get("keepdims"), t.get("ddof"), at, X[k].tolist(), float(G[k][at]), float(want[at])), "task": t})
+                break
+    return n_lanes, bad
 
 
 # ------------------------------------------------------------------ exact registry: systematic single-operation programs
@@ -324,8 +486,12 @@ def run(rep, work, tier, seed, props, replay=None):
     found = []
     # 1. translator tie
     n_pts, bad1 = scalar_tie(rep, ops, rng)
+    n_fs, bad_fs = formula_search(ops)
     # 2. RealOps tie
     n_real, bad2 = realops_tie()
+    # 2b. lane reductions vs Model/VecOps.v
+    vecops_guard()
+    n_lanes, bad2b = lane_tie(rng, tier)
     # 3. exact registry sweep
     builders = single_op_builders(rng, tier) if replay is None or "stmts" not in replay else [progs.builder_from_stmts(replay["stmts"])]
     results = run_impl_cases([b.case("backward") for b in builders])
@@ -371,7 +537,7 @@ def run(rep, work, tier, seed, props, replay=None):
                         r["label"], e["analytic"], e["operand"], e["at"], e["numeric"]), "catalog_index": t["index"], "seed": t["seed"], "label": r["label"], "detail": e})
     # ---- report
     kf = {f["name"]: f for f in known_findings("C02") if f["status"] == "known"}
-    for item in (bad1 + bad2)[:6]:
+    for item in (bad1 + bad_fs + bad2 + bad2b)[:8]:
         rep.violation(item)
     for j in sorted(bad3, key=lambda j: len(kb[j].stmts))[:6]:
         rep.violation({"kind": "exact-integer single-operation program: gradient differs from the model whose VJP is proved -- " + getattr(kb[j], "c02_label", ""), "stmts": kb[j].stmts, "impl": kr[j]})
@@ -382,7 +548,7 @@ def run(rep, work, tier, seed, props, replay=None):
             continue
         shown.add(key)
         rep.violation(item)
-    any_input = bool(bad1 or bad3 or cat_bad)
+    any_input = bool(bad1 or bad_fs or bad2b or bad3 or cat_bad)
     for p in props.get("translator_problems") or []:
         rep.violation({"kind": "vjp translator: " + p, "broken": "harness/vjp_translate.py"}, no_input=not any_input)
     if not props["ok"]:
@@ -390,7 +556,7 @@ def run(rep, work, tier, seed, props, replay=None):
         rep.violation({"kind": "proof obligations of Props/C02.v no longer check over the regenerated Gen/VjpScalar.v: " + broken_lemma(props["log"]),
                        "broken": broken_lemma(props["log"]), "log": props["log"][-1500:], "refused_by_translator": tr["refused"]}, no_input=not any_input)
     rep.coverage.update({
-        "evaluations": n_pts + n_real + len(kb) + cat_n,
+        "evaluations": n_pts + n_real + n_lanes + len(kb) + cat_n,
         "distinct_nontrivial": len(set(progs.canonical(b) for b in kb)) + len(ops) + len(cat_fam),
         "rule": "translator tie: every translated class x grid of points (22 values, 17^2 pairs) incl. 0, +-1, tiny and singular points; exact sweep: one operation per program with systematic options, "
                 "distinct permutation values for max/min; catalogue: ~1100 operation x option entries at kink-free points; non-trivial = every exact program (an operation with a non-constant operand "
@@ -398,7 +564,9 @@ def run(rep, work, tier, seed, props, replay=None):
         "samples": [kb[0].stmts if kb else None],
         "translated_classes": [op["name"] for op in ops], "refused_classes": tr["refused"],
         "translator_tie_points": n_pts, "translator_tie_disagreements": len(bad1),
+        "formula_search_points": n_fs, "formula_search_failures": len(bad_fs),
         "realops_points": n_real, "realops_disagreements": len(bad2),
+        "lane_reduction_lanes": n_lanes, "lane_reduction_disagreements": len(bad2b),
         "exact_programs": len(kb), "exact_discarded": len(builders) - len(kb), "exact_disagreements": len(bad3), "exact_ops": fn_hist,
         "catalogue_entries_run": cat_n, "catalogue_families": cat_fam, "catalogue_disagreements": len(cat_bad), "catalogue_worst_rel_err_below_threshold": worst,
     })
